@@ -298,6 +298,12 @@ def region_all(case):
 REGIONS = {"from-tzinfo": region_all}
 
 
+RENAMED = [("America/Yakutat", 1982, 8), ("America/Juneau", 1982, 8), ("America/Anchorage", 1982, 8), ("America/Nome", 1982, 8), ("America/Sitka", 1982, 8),
+           ("America/Adak", 1982, 8), ("US/Alaska", 1982, 8), ("Asia/Gaza", 1994, 8), ("Asia/Hebron", 1994, 8), ("Europe/Kirov", 2009, 8), ("Europe/Volgograd", 2009, 8),
+           ("Europe/Kaliningrad", 2009, 8), ("Europe/Minsk", 2009, 8), ("Africa/Windhoek", 1988, 8), ("Asia/Karachi", 1970, 5), ("Pacific/Guam", 1998, 5),
+           ("Antarctica/Troll", 2003, 5)]
+
+
 @st.composite
 def cases(draw, grid_days=5):
     zone = draw(st.one_of(st.sampled_from(all_zones()), st.sampled_from(AWKWARD)))
@@ -307,6 +313,11 @@ def cases(draw, grid_days=5):
         y0, span = draw(st.sampled_from([1990, 1992, 2009, 2010])), 5       # a window around the jump across the date line
     if zone == "Africa/Monrovia" and draw(st.booleans()):
         y0, span = 1970, draw(st.sampled_from([1, 3]))
+    if draw(st.integers(0, 7)) == 0:
+        # zones that were renamed while keeping their offsets (own list, from the tz database): a window from before the rename to
+        # years after it - the same pair of offsets carries other abbreviations later on
+        zone, y0, span = draw(st.sampled_from(RENAMED))
+        span = draw(st.sampled_from([span, span, 15, 30]))
     y1 = min(2038, y0 + span)
     first = [y0, draw(st.integers(1, 12)), draw(st.integers(1, 28))]
     last = [y1, draw(st.integers(1, 12)), draw(st.integers(1, 28))]
